@@ -52,6 +52,7 @@ type vC20Gates struct {
 	enabled   [4]bool
 	reached   [4]chan struct{}
 	release   [4]chan struct{}
+	fail      [4]bool       // the gated access itself fails with vjds.ErrInjected (set before the gate is released)
 	started   chan struct{} // closed at the first datastore access made by ResetCids itself
 	startOnce sync.Once
 	seen      [4]atomic.Bool
@@ -86,6 +87,9 @@ func (g *vC20Gates) hook(e *vjds.Entry) error {
 		if g.enabled[gate] {
 			close(g.reached[gate])
 			<-g.release[gate]
+			if g.fail[gate] {
+				return vjds.ErrInjected
+			}
 		}
 	}
 	return nil
@@ -124,6 +128,11 @@ type vC20Scenario struct {
 	endMode      string
 	endAt        string
 	closedByCase bool
+
+	// a second, sequential ResetCids on the same live keystore after the scenario (not after Close)
+	s2, e2 int     // journal length before / after it (-1: not run or failed)
+	live1  vC20Set // live contents right before it
+	after2 vC20Set // its keys
 }
 
 func (sc *vC20Scenario) bufFull() bool {
@@ -171,6 +180,14 @@ func (sc *vC20Scenario) await(pt *vC20Put, resetDone <-chan struct{}) {
 
 // allowed is the crash / final-state oracle of a scenario for the journal prefix n.
 func (sc *vC20Scenario) allowed(n int, cont vC20Set) (bool, string, string) {
+	if sc.s2 >= 0 && sc.e2 >= 0 && n > sc.s2 {
+		// the second reset is sequential (every put was acknowledged before): exactly its keys once it
+		// has returned, exactly the contents before it or exactly its keys while it runs
+		if n >= sc.e2 {
+			return cont.equal(sc.after2), "after-second-reset", "exactly the keys of the second reset " + sc.p.short(sc.after2.sorted())
+		}
+		return cont.equal(sc.live1) || cont.equal(sc.after2), "second-reset", "exactly the contents before the second reset " + sc.p.short(sc.live1.sorted()) + " or exactly its keys " + sc.p.short(sc.after2.sorted())
+	}
 	if n <= sc.pe || !sc.resetIssued {
 		if n > sc.pe {
 			n = sc.pe
@@ -220,14 +237,14 @@ func (sc *vC20Scenario) knownSize(n int) string {
 
 func TestVerif_C20_reset(t *testing.T) {
 	vh.Run(t, vh.Spec{Prop: "C20", Unit: "reset", Quick: 1200, Thorough: 25000, CostMs: 35, WallS: 120,
-		Rule:    "ResettableKeystore in shared and factory mode (prefixBits {0,8,16}, batchSize {1,2,3,7}, buffer cap {1,2,64}): sequential preparation (0-3 puts, optional clean restart, optional complete reset so that the live slot is 1), then ResetCids with 0-30 CIDs fed through an unbuffered channel and 0-6 concurrent Puts (1-3 keys) steered into: overlap with the start, phase A after the i-th CID, the gate at phase A's final sync, the gate at phase B's count, the gate inside phase C's checked drain (tail, drained by the worker before the swap), after the reset; end = completion, cancellation or Close at one of these positions. Oracle on the live keystore after the run, after a clean Close + reopen, and after a crash at EVERY write boundary of the whole journal under the prefix model and four subset-model survivor choices: contents = previous set + acknowledged puts, or new set + puts issued after the reset consumed its first CID (or reached a gate) and acknowledged (overlapping puts optional, unacknowledged puts optional), never a mixture; a reset that returned nil without cancel/Close in flight must be found replaced; Size = number of keys. Non-trivial = at least one put was acknowledged while the reset was in phase A, at a gate or in the tail; distinct by (config, end, phases, counts)",
-		Clauses: []string{"reset-live-contents", "reset-live-size", "crash-contents", "crash-size", "reset-returns"}},
+		Rule:    "ResettableKeystore in shared and factory mode (prefixBits {0,8,16}, batchSize {1,2,3,7}, buffer cap {1,2,64}): sequential preparation (0-3 puts, optional clean restart, optional complete reset so that the live slot is 1), then ResetCids with 0-30 CIDs fed through an unbuffered channel and 0-6 concurrent Puts (1-3 keys) steered into: overlap with the start, phase A after the i-th CID, the gate at phase A's final sync, the gate at phase B's count, the gate inside phase C's checked drain (tail, drained by the worker before the swap), after the reset; end = completion, cancellation or Close at one of these positions, or an injected error of the gated access itself (phase A's final sync, phase B's count, the batch of phase C's drain) after the puts of that gate; unless the case closed the keystore, a second sequential ResetCids (0-5 CIDs) follows on the same live keystore and must leave exactly its keys (live, and at every crash point: exactly the contents before it or exactly its keys). Oracle on the live keystore after the run, after a clean Close + reopen, and after a crash at EVERY write boundary of the whole journal under the prefix model and four subset-model survivor choices: contents = previous set + acknowledged puts, or new set + puts issued after the reset consumed its first CID (or reached a gate) and acknowledged (overlapping puts optional, unacknowledged puts optional), never a mixture; a reset that returned nil without cancel/Close in flight must be found replaced; Size = number of keys. Non-trivial = at least one put was acknowledged while the reset was in phase A, at a gate or in the tail; distinct by (config, end, phases, counts)",
+		Clauses: []string{"reset-live-contents", "reset-live-size", "crash-contents", "crash-size", "reset-returns", "reset-second"}},
 		func(c *vh.Case) {
 			p := vC20GetPool()
 			r := c.R
 			cfg := vC20RandCfg(r, []string{"shared", "factory"})
 			u := vC20Universe(r, p)
-			sc := &vC20Scenario{c: c, p: p, cfg: cfg, rs: -1, re: -1}
+			sc := &vC20Scenario{c: c, p: p, cfg: cfg, rs: -1, re: -1, s2: -1, e2: -1}
 			g := vC20NewGates()
 			j := vjds.NewJournal()
 			j.Hook = g.hook
@@ -312,11 +329,11 @@ func TestVerif_C20_reset(t *testing.T) {
 			for i, n := 0, r.Intn(3); i < n; i++ {
 				sc.puts = append(sc.puts, &vC20Put{Phase: "post", Keys: vC20SetOf(vC20PickKeys(r, u, nil, 1+r.Intn(3), 0)).sorted()})
 			}
-			sc.endMode = []string{"complete", "complete", "complete", "cancel", "close"}[r.Intn(5)]
+			sc.endMode = []string{"complete", "complete", "complete", "cancel", "close", "fault"}[r.Intn(6)]
 			if sc.endMode != "complete" {
 				sc.endAt = []string{"A", "B1", "B2", "tail"}[r.Intn(4)]
-				if sc.endAt == "A" && len(newKeys) == 0 {
-					sc.endAt = "B1"
+				if sc.endAt == "A" && (len(newKeys) == 0 || sc.endMode == "fault") {
+					sc.endAt = "B1" // faults are injected at the gated accesses only
 				}
 			}
 			endAfter := 0
@@ -430,7 +447,16 @@ func TestVerif_C20_reset(t *testing.T) {
 						}
 					}
 					if vC20GateOf[sc.endAt] == gi && !ended {
-						end(fmt.Sprintf("gate %d", gi))
+						if sc.endMode == "fault" {
+							// the gated access of ResetCids (phase A's final sync / phase B's count / the batch
+							// of phase C's drain) fails after the puts above were issued: the reset must not
+							// replace the contents by a set that lacks them
+							g.fail[gi] = true
+							c.Obs("faults_injected_at_gate", 1)
+							c.Logf("injected error at gate %d", gi)
+						} else {
+							end(fmt.Sprintf("gate %d", gi))
+						}
 						ended = true
 					}
 					close(g.release[gi])
@@ -506,10 +532,12 @@ func TestVerif_C20_reset(t *testing.T) {
 				n := j.Len()
 				cont, dup, err := vC20Contents(env.ks)
 				size, _ := env.ks.Size(vC20Ctx)
+				liveOK := false
 				if err != nil {
 					c.Fail("reset-live-contents", "Get after the reset: %v", err)
 				} else {
 					ok, _, want := sc.allowed(n, cont)
+					liveOK = ok && !dup && size == len(cont)
 					c.Clause("reset-live-contents")
 					if !ok || dup {
 						c.FailSig("reset-live-contents", "reset/live-contents-"+sc.endMode, "after ResetCids returned %v the live keystore holds %s (duplicates %v); allowed: %s", sc.resetErr, p.short(cont.sorted()), dup, want)
@@ -521,6 +549,28 @@ func TestVerif_C20_reset(t *testing.T) {
 							sig = s
 						}
 						c.FailSig("reset-live-size", sig, "after ResetCids returned %v: Size()=%d but %d keys are stored %s", sc.resetErr, size, len(cont), p.short(cont.sorted()))
+					}
+				}
+				// ---- a second reset on the same live keystore: nothing of the first one (buffered puts of a
+				// cancelled or failed reset, slot bookkeeping) may leak into it
+				if liveOK {
+					keys2 := vC20PickKeys(r, u, nil, r.Intn(6), 0)
+					s2 := j.Len()
+					err2 := rks.ResetCids(vC20Ctx, vC20CidChan(keys2))
+					c.Clause("reset-second")
+					c.Obs("second_resets", 1)
+					c.Logf("second ResetCids%s returned %v (journal %d..%d)", p.short(keys2), err2, s2, j.Len())
+					if err2 != nil {
+						c.FailSig("reset-second", "reset/second-reset-error", "a sequential ResetCids after the first one returned %v (end %s@%s) returned %v", sc.resetErr, sc.endMode, sc.endAt, err2)
+					} else {
+						sc.live1, sc.after2 = cont, vC20SetOf(keys2)
+						sc.s2, sc.e2 = s2, j.Len()
+						sizeOK, contOK, detail := vC20State(p, env.ks, sc.after2)
+						if !contOK {
+							c.FailSig("reset-second", "reset/second-reset-contents", "after a sequential ResetCids%s following the first one (returned %v, end %s@%s): %s", p.short(keys2), sc.resetErr, sc.endMode, sc.endAt, detail)
+						} else if !sizeOK {
+							c.FailSig("reset-second", "reset/second-reset-size", "after a sequential ResetCids%s following the first one (returned %v, end %s@%s): %s", p.short(keys2), sc.resetErr, sc.endMode, sc.endAt, detail)
+						}
 					}
 				}
 				if err := env.ks.Close(); err != nil {
